@@ -22,6 +22,7 @@ import math
 import numpy as np
 
 import builders_confocal as bc
+import common
 from common import errname
 
 PROP = "C19"
@@ -39,7 +40,9 @@ THEOREMS = [
 
 RULE = (
     "a case = object + history (<= 8 steps; addressed object = source, newest or any) of read-only queries and derivations. "
-    "Kymographs/scans are built with the public constructors Kymo/Scan(name, ConfocalFileProxy, start, stop, metadata) from "
+    "Kymographs/scans are built with the public lumicks.pylake.low_level.create_confocal_object (info wave, photon-count slices, "
+    "Bluelake JSON; it calls the constructor Kymo/Scan(name, file proxy, start, stop, metadata) with the bounds of the info "
+    "wave), the nominal [start, stop) then put on the brand-new object through its public attributes start/stop, from "
     "generated info waves (P<=4 pixels, <=5 lines / <=3 frames, 1-3 samples per pixel, lead-in, dead time): normal, photon "
     "streams that start before the scan, end early (shorter than the info wave), absent colours, nominal start inside the "
     "preceding sample, unfinished last frame, and TRUNCATED FIRST LINE (every photon stream starts 1..k samples after the "
@@ -100,6 +103,19 @@ TRUSTED = [
     "Kymo.shape / duration are modelled on the red image; when the colours' photon streams end at different samples and the red "
     "image of the asked (time-downsampled) kymograph has no columns, the column count comes from the next colour and is "
     "pinned by the twin oracle only (rows, line time and everything else stay tied to the model)",
+    "no private module path is imported by this file (objects come from lumicks.pylake.low_level and the public classes of "
+    "lumicks.pylake.channel / .fdcurve / .kymotracker.kymotrack / lumicks.pylake.ImageStack); private MEMBERS are touched in six "
+    "places, each guarded at the point of access (`peek`: an AttributeError for an underscore name raised by the harness "
+    "itself gives '?', which every comparison ignores; counted under private_members_unreachable in the evidence): (1) the "
+    "pixel-count list, the calibration unit and the position offset inside the calibration / pixel-size block (the block's "
+    "public values carry it); (2) the primary channel names of an F,d curve (the f / d queries show what they select); (3) the "
+    "minimum observable duration of a track (also observed through the column the public KymoTrackGroup.save writes); (4) "
+    "FdCurve._sliced_by_distance as a derivation (else the same run of samples cut out with the public time slicing); (5) "
+    "kymo._kymo_from_array behind builders_tracks' array-backed kymographs (else a low-level kymograph carries the track group); "
+    "(6) ConfocalImage._timestamps(reduce=min/max) on CLEAN objects when a provenance term needs per-pixel first / last sample "
+    "timestamps (else they are rebuilt in plain Python from the description and accepted only if the mean rebuilt the same way "
+    "equals the clean object's public `timestamps` element for element; no expectation otherwise - the twin oracle never "
+    "depends on it)",
 ]
 ASSUMPTIONS = [
     "info wave and photon counts share one sampling grid; constant samples per pixel",
@@ -146,7 +162,36 @@ def val(x):
     return repr(x)
 
 
+UNSEEN = "?"  # private bookkeeping of pylake that could not be reached (renamed / moved / inlined): not an answer
+UNREACHED = {}  # what could not be reached in this run, how often (reported in the evidence; empty on an unrefactored tree)
+
+
+def unreached(what):
+    UNREACHED[what] = UNREACHED.get(what, 0) + 1
+
+
+def private_gone(e):
+    """the HARNESS reached for a private pylake name (leading underscore) that is not there: a refactoring renamed, moved or
+    inlined it.  That says nothing about what the code computes (an AttributeError raised inside pylake is not caught)"""
+    return isinstance(e, AttributeError) and str(getattr(e, "name", "") or "").startswith("_") and common._raised_in_harness(e)
+
+
+def peek(get):
+    """private bookkeeping the property does not speak about (pixel-count list, calibration unit, position offset, primary
+    channel names, minimum observable duration): observed only while it is reachable, otherwise `UNSEEN`, which `same`
+    ignores - it never surfaces as an answer of the implementation"""
+    try:
+        return get()
+    except AttributeError as e:
+        if private_gone(e):
+            unreached("private member " + str(e.name))
+            return UNSEEN
+        raise
+
+
 def same(a, b, rel=1e-9):
+    if (isinstance(a, str) and a == UNSEEN) or (isinstance(b, str) and b == UNSEEN):
+        return True
     if isinstance(a, bool) or isinstance(b, bool):
         return a is b or a == b and type(a) is type(b)
     if isinstance(a, (int, float)) and isinstance(b, (int, float)):
@@ -170,48 +215,46 @@ def short(v, n=160):
 # =========================================================================== confocal family
 
 
-def cf_file(spec):
-    from lumicks.pylake.channel import empty_slice
-    from lumicks.pylake.detail.confocal import ConfocalFileProxy
+def cf_make(spec, start=None, stop=None):
+    """a NEW kymograph / scan through the public low-level API only: `low_level.create_confocal_object` (info wave + photon
+    count slices + Bluelake JSON; it picks Kymo / Scan by the number of scan axes and calls the class constructor with the
+    bounds of the info wave), then the nominal [start, stop) of the description is put on the brand-new object through its
+    public attributes `start` / `stop` before anything has been asked - the constructor only stores them, and it is what
+    Kymo.__getitem__ itself does with the copy it makes.  No private module path (detail.confocal.ConfocalFileProxy /
+    ScanMetaData) is needed."""
+    from lumicks.pylake.low_level import create_confocal_object
 
     dt = spec["dt"]
     kw = {}
     for c in bc.COLORS:
         ch = spec["chans"].get(c)
-        kw[f"{c}_channel"] = empty_slice if not ch or not ch[1] else bc.continuous(ch[1], T0 + ch[0] * dt, dt)
-    return ConfocalFileProxy(bc.continuous(spec["iw"], T0, dt, dtype=np.uint8), **kw)
-
-
-def cf_meta(spec):
-    from lumicks.pylake.detail.confocal import ScanMetaData
-
+        if ch and ch[1]:  # an absent colour: the default (the empty slice)
+            kw[f"{c}_channel"] = bc.continuous(ch[1], T0 + ch[0] * dt, dt)
     if spec["kind"] == "kymo":
         axes = [(0, spec["P"], spec.get("px_nm", 125.0))]
     else:
         axes = [(spec["fast"], spec["P"], 125.0), (spec["slow"], spec["L"], 250.0)]
-    return ScanMetaData.from_json(bc.confocal_json(axes, spec.get("scan_count", 0)))
-
-
-def cf_make(spec, start=None, stop=None):
-    from lumicks.pylake.kymo import Kymo
-    from lumicks.pylake.scan import Scan
-
-    cls = Kymo if spec["kind"] == "kymo" else Scan
-    s = spec["start"] if start is None else start
-    e = spec["stop"] if stop is None else stop
-    return cls("obj", cf_file(spec), int(s), int(e), cf_meta(spec))
+    o = create_confocal_object(
+        "obj", bc.continuous(spec["iw"], T0, dt, dtype=np.uint8), bc.confocal_json(axes, spec.get("scan_count", 0)), **kw
+    )
+    o.start = int(spec["start"] if start is None else start)
+    o.stop = int(spec["stop"] if stop is None else stop)
+    return o
 
 
 def cf_static(o, kind):
     """calibration / pixel-size / pixel-count block; every value is copied (`val`) at the moment it is asked, so a list the
-    object hands out and later changes behind our back cannot rewrite an answer that was already given"""
+    object hands out and later changes behind our back cannot rewrite an answer that was already given.  The PUBLIC values
+    carry the block (pixelsize, pixelsize_um, pixels_per_line, lines_per_frame, size_um, fast_axis, contiguous: the private
+    pixel-count list is pixels_per_line / lines_per_frame and size_um / pixelsize_um once more, a calibration in another
+    unit has another pixelsize); the three PRIVATE values are looked at only while they are reachable (`peek`)."""
     if kind == "kymo":
         getters = (lambda: o.pixelsize, lambda: o.pixelsize_um, lambda: int(o.pixels_per_line), lambda: o.size_um,
-                   lambda: o.fast_axis, lambda: list(o._num_pixels), lambda: o._calibration.unit, lambda: bool(o.contiguous),
-                   lambda: float(o._position_offset))
+                   lambda: o.fast_axis, lambda: peek(lambda: list(o._num_pixels)), lambda: peek(lambda: o._calibration.unit),
+                   lambda: bool(o.contiguous), lambda: peek(lambda: float(o._position_offset)))
     else:
         getters = (lambda: o.pixelsize_um, lambda: int(o.pixels_per_line), lambda: int(o.lines_per_frame), lambda: o.size_um,
-                   lambda: o.fast_axis, lambda: list(o._num_pixels))
+                   lambda: o.fast_axis, lambda: peek(lambda: list(o._num_pixels)))
     return [val(g()) for g in getters]
 
 
@@ -387,6 +430,7 @@ class ChannelFamily(PureFamily):
 
     def build(self, spec):
         from lumicks.pylake.channel import Continuous, Slice, TimeSeries
+        from lumicks.pylake.low_level import make_continuous_slice
 
         data = np.asarray(spec["data"], dtype=float)
         if spec["kind"] == "cont":
@@ -407,7 +451,8 @@ class ChannelFamily(PureFamily):
                     ds.attrs["Kind"] = "Continuous"
                     self._datasets[key] = ds
                 return Continuous.from_dataset(ds)  # a Slice over a lazily read dataset
-            return Slice(Continuous(data, spec["start"], spec["dt"]), {"title": "t", "y": "y"})
+            # public low-level constructor: Slice(Continuous(data, start, dt), {"title": "t", "y": "y"})
+            return make_continuous_slice(data, int(spec["start"]), int(spec["dt"]), y_label="y", name="t")
         return Slice(TimeSeries(data, np.asarray(spec["ts"], dtype=np.int64)), {"title": "t", "y": "y"})
 
     def query(self, o, name):
@@ -462,6 +507,26 @@ class ChannelFamily(PureFamily):
         self._datasets = {}
 
 
+def fd_by_distance_public(o, lo, hi):
+    """the longest (first of the longest) time-contiguous run of samples with lo <= distance <= hi of an F,d curve, cut out
+    with the public time slicing `fd[start:stop]` (open end when the run reaches the last sample; no run: ValueError)"""
+    d = np.asarray(o.d.data)
+    ts = np.asarray(o.d.timestamps)
+    inside = [bool(lo <= v <= hi) for v in d]
+    runs, i = [], 0
+    while i < len(inside):
+        j = i
+        while j < len(inside) and inside[j]:
+            j += 1
+        if j > i:
+            runs.append((i, j))
+        i = max(j, i + 1)
+    if not runs:
+        raise ValueError("attempt to get argmax of an empty sequence")
+    a, b = max(runs, key=lambda r: r[1] - r[0])  # max keeps the first of equally long runs
+    return o[ts[a] :] if b == len(ts) else o[ts[a] : ts[b]]
+
+
 class FdFamily(PureFamily):
     queries = ("f", "d", "range", "name", "fts")
 
@@ -489,7 +554,8 @@ class FdFamily(PureFamily):
         if name == "range":
             return [int(o.start), int(o.stop)]
         if name == "name":
-            return [o.name, o._primary_force_channel, o._primary_distance_channel]
+            # the names of the primary channels are private bookkeeping (what they select is public: the queries f / d)
+            return [o.name, peek(lambda: o._primary_force_channel), peek(lambda: o._primary_distance_channel)]
         raise KeyError(name)
 
     def derive(self, o, op, objs):
@@ -503,7 +569,10 @@ class FdFamily(PureFamily):
         if n == "sub":
             return o - objs[op[3]]
         if n == "bydist":
-            return o._sliced_by_distance(op[3], op[4])
+            # FdCurve._sliced_by_distance (what the distance range selector widget calls) while it is reachable; otherwise the
+            # same derivation through the public time slicing
+            by_distance = peek(lambda: o._sliced_by_distance)
+            return fd_by_distance_public(o, op[3], op[4]) if isinstance(by_distance, str) else by_distance(op[3], op[4])
         if n == "copy":
             return _copy.copy(o)
         raise KeyError(n)
@@ -556,6 +625,70 @@ class StackFamily(PureFamily):
         self.store.close()
 
 
+def tracks_kymo_public(btr, img, name="verif"):
+    """builders_tracks.make_kymo(route="lowlevel") once more, touching the public low-level API only (that builder imports the
+    private lumicks.pylake.kymo._kymo_from_array before it looks at the route): every pixel 4 samples, the last one flagged
+    2, 3 samples of dead time before every line, the red photon counts are the image, green and blue are zero"""
+    from lumicks.pylake import low_level
+
+    n_pixels, n_lines = img.shape
+    k, pad, dt = 4, 3, 12800
+    line = np.zeros(n_pixels * k + pad, dtype=np.uint8)
+    first = np.zeros(n_pixels, dtype=int)
+    for px in range(n_pixels):
+        a = pad + px * k
+        line[a : a + k] = 1
+        line[a + k - 1] = 2
+        first[px] = a
+    photons = np.zeros(len(line) * n_lines, dtype=np.uint32)
+    for ln in range(n_lines):
+        photons[ln * len(line) + first] = img[:, ln]
+    mk = lambda d: low_level.make_continuous_slice(d, int(btr.FIRST_TIMESTAMP), dt)
+    return low_level.create_confocal_object(
+        name, mk(np.tile(line, n_lines)), btr._metadata_json(n_pixels, 100.0), red_channel=mk(photons),
+        green_channel=mk(np.zeros_like(photons)), blue_channel=mk(np.zeros_like(photons)),
+    )
+
+
+def tracks_min_durations_exported(group):
+    """the minimum observable durations as the PUBLIC CSV export (KymoTrackGroup.save) reports them: one value per track
+    point (6 digits), None when the column is not written (some track has no minimum), the error name when the export
+    refuses (empty group).  The per-track value itself is a private slot of KymoTrack."""
+    import io
+
+    buf = io.StringIO()
+    try:
+        group.save(buf)
+    except Exception as e:
+        return errname(e)
+    head = [ln[1:].strip() for ln in buf.getvalue().splitlines() if ln.startswith("#")]
+    rows = [ln for ln in buf.getvalue().splitlines() if ln and not ln.startswith("#")]
+    cols = [i for i, title in enumerate(head[-1].split(";")) if title.strip().startswith("minimum observable duration")] if head else []
+    return [float(r.split(";")[cols[0]]) for r in rows] if cols else None
+
+
+def tracks_state(group):
+    """the observable content of a group as plain values (builders_tracks.group_state, with the private slot looked at only
+    while it is reachable) plus what the public export says about the minimum observable durations"""
+    tracks = []
+    for tr in group:
+        try:
+            counts = [int(x) for x in np.asarray(tr.photon_counts)]
+            if not all(float(x) == int(x) for x in np.asarray(tr.photon_counts)):
+                counts = [float(x) for x in np.asarray(tr.photon_counts)]
+        except AttributeError:  # raised by pylake: this kind of track has no photon counts
+            counts = None
+        md = peek(lambda: tr._minimum_observable_duration)
+        tracks.append({
+            "t": [int(x) for x in np.asarray(tr.time_idx)],
+            "c": [float(x) for x in np.asarray(tr.coordinate_idx)],
+            "pos": [float(x) for x in np.asarray(tr.position)],
+            "min_duration": md if md is None or isinstance(md, str) else float(md),
+            "counts": counts,
+        })
+    return {"tracks": tracks, "min_durations_exported": tracks_min_durations_exported(group)}
+
+
 class TrackFamily(PureFamily):
     queries = ("state", "len", "seconds", "msd", "duration")
 
@@ -566,12 +699,18 @@ class TrackFamily(PureFamily):
 
     def build(self, spec):
         img = np.asarray(spec["image"])
-        kymo = self.btr.make_kymo(img, route=spec.get("route", "lowlevel"), line_time_s=spec.get("line_time_s"))
+        try:
+            kymo = self.btr.make_kymo(img, route=spec.get("route", "lowlevel"), line_time_s=spec.get("line_time_s"))
+        except ImportError:
+            # the private constructor of array-backed kymographs (lumicks.pylake.kymo._kymo_from_array, route "array") is
+            # not reachable: a low-level kymograph stands in for it (every twin is built the same way)
+            unreached("private constructor of array-backed kymographs (track groups built on a low-level kymograph)")
+            kymo = tracks_kymo_public(self.btr, img)
         return self.btr.make_group(kymo, spec["tracks"])
 
     def query(self, o, name):
         if name == "state":
-            return self.btr.group_state(o)
+            return tracks_state(o)
         if name == "len":
             return len(o)
         if name == "seconds":
@@ -864,6 +1003,19 @@ class Err(Exception):
     pass
 
 
+class Unreachable(Exception):
+    """a provenance term needs a private pylake member that is not there any more: no expectation (`UNSEEN`) for this step"""
+
+
+def timestamp_mean_plain(a, axis):
+    """pylake's mean of timestamps in plain integer arithmetic: the smallest timestamp plus the floor of the mean offset
+    from it (the library splits the sum into blocks only when it could overflow int64 - a handful of offsets of less than
+    a second cannot)"""
+    a = np.asarray(a, dtype=np.int64)
+    smallest = a.min()
+    return smallest + (a - smallest).sum(axis=axis) // a.shape[axis]
+
+
 def plain_window(spec, s, e):
     """indices of the info-wave samples with s <= t < e (plain arithmetic, no pylake)"""
     dt = spec["dt"]
@@ -926,7 +1078,16 @@ class Evaluator:
                 if p.startswith("image."):
                     return o.get_image(COLOR[p[6:]])
                 r = p[3:]
-                return o._timestamps() if r == "mean" else o._timestamps(reduce=REDUCE[r])
+                if r == "mean":
+                    return o.timestamps  # the public property
+                # per-pixel FIRST / LAST sample timestamps exist only behind the private memoised ConfocalImage._timestamps
+                reduced = peek(lambda: o._timestamps)
+            except Exception as ex:
+                raise Err(errname(ex))
+            if isinstance(reduced, str):
+                return self.first_last_plain(o, r)
+            try:
+                return reduced(reduce=REDUCE[r])
             except Exception as ex:
                 raise Err(errname(ex))
         if name == "frames":
@@ -962,9 +1123,7 @@ class Evaluator:
             r = prim[3:]
             full = v[: (v.shape[0] // pf) * pf, :].reshape(-1, pf, v.shape[1])
             if r == "mean":
-                from lumicks.pylake.detail.confocal import timestamp_mean
-
-                return timestamp_mean(full, axis=1)
+                return timestamp_mean_plain(full, axis=1)
             return REDUCE[r](full, axis=1)
         if n == "flip":
             return v[::-1, :]
@@ -1065,12 +1224,56 @@ class Evaluator:
                     if self.columns_open(img, cols) and same(twin_value, lt * cols):
                         return lt * cols
                 return lt * img.shape[1]
+        except Unreachable:
+            unreached("model expectation skipped (per-pixel first / last sample timestamps could not be rebuilt)")
+            return UNSEEN  # no expectation for this step: `same` ignores it (the twin oracle still pins the answer)
         except Err as e:
             name = str(e)
             return {"error": name} if not name.startswith("unevaluable") else {"unevaluable": name}
         except Exception as e:  # the term does not describe a computable value on this object
             return {"unevaluable": term + " raised " + errname(e)}
         return {"unevaluable": term}
+
+    def first_last_plain(self, o, r):
+        """per-pixel FIRST (r = "min") / LAST ("max") sample timestamps of a CLEAN object when the private memoised method
+        behind them cannot be reached.  Rebuilt in plain Python from the description - the info-wave samples != 0 inside the
+        object's window, cut at the end of a photon stream, grouped by the number of samples of the first pixel, padded with
+        zeros to whole lines / frames, laid out like the image - and ACCEPTED ONLY IF the per-pixel mean rebuilt in exactly
+        the same way equals, element for element, the object's public `timestamps` (that pins window, cut, grouping and
+        layout; first and last of a group then are what min / max of it are).  Otherwise: no expectation."""
+        spec = self.spec
+        try:
+            mean = np.asarray(o.timestamps)  # public; asks the photon counts, i.e. repairs a late start first
+        except Exception as ex:
+            raise Err(errname(ex))  # min / max go through the same reconstruction and fail the same way
+        try:
+            dt, iw = spec["dt"], spec["iw"]
+            lo, hi = int(o.start), int(o.stop)
+            cuts = {hi} | {T0 + (v[0] + len(v[1])) * dt for v in spec["chans"].values() if v and v[1]}
+            for cut in sorted(cuts, reverse=True):
+                used = [i for i in range(len(iw)) if lo <= T0 + i * dt < min(hi, cut) and iw[i] != 0]
+                if not used:
+                    continue
+                codes = [iw[i] for i in used]
+                k = codes.index(max(codes)) + 1  # samples per pixel: up to the first pixel boundary
+                groups = [[T0 + i * dt for i in used[j : j + k]] for j in range(0, (len(used) // k) * k, k)]
+                if not groups:
+                    continue
+                if self.case["family"] == "kymo":
+                    per = spec["P"]
+                    lay = lambda a: a.reshape(-1, per).T
+                else:
+                    per = spec["P"] * spec["L"]
+                    swap = spec["fast"] > spec["slow"]
+                    lay = lambda a: np.swapaxes(np.squeeze(a.reshape(-1, spec["L"], spec["P"])), -1, -2) if swap else np.squeeze(
+                        a.reshape(-1, spec["L"], spec["P"]))
+                pad = [0] * (-len(groups) % per)
+                if lay(np.asarray([sum(g) // k for g in groups] + pad, dtype=np.int64)).tolist() == mean.tolist():
+                    unreached("per-pixel first / last sample timestamps rebuilt in plain Python (validated against the public timestamps)")
+                    return lay(np.asarray([g[0] if r == "min" else g[-1] for g in groups] + pad, dtype=np.int64))
+        except Exception:
+            pass
+        raise Unreachable("ts." + r)
 
     def errors_only(self, t):
         # a term that is not a pair where a pair is expected must be a modelled exception
@@ -2097,4 +2300,5 @@ def extra_coverage(results):
         except Exception:
             pass
     return {"object_kinds": fam, "object_modes": modes, "queries": qn, "derivations": dn, "history_lengths": lens,
-            "answer_kinds": outcomes, "cases_with_late_photon_timeline": lates}
+            "answer_kinds": outcomes, "cases_with_late_photon_timeline": lates,
+            "private_members_unreachable": dict(sorted(UNREACHED.items()))}
